@@ -22,3 +22,20 @@ package linux
 //vc:  requires[C11] !isCompareRun
 //vc:func (*State).writeStartupRouting
 //vc:  requires[C11] !isCompareRun
+
+//vc:func (*State).checkDeviceName
+//vc:  set nameChecked = true
+//vc:  set checkedName = name
+//vc:  ensures[C06] @reportedNameEqualsExpected name == strings.TrimSuffix(lastOutput, "\n")
+//vc:  ensures[C06] nameChecked && checkedName == name
+
+// /etc/issue is searched for the configured text; nothing configured = check skipped.
+//vc:func (*State).checkBanner
+//vc:  set markerMissing = cfg.CheckBanner != nil && len(lastOutput) == 0
+//vc:  ensures[C06] @bannerMissingRecorded markerMissing ==> len(s.errUnmanaged) > 0
+//vc:  ensures[C06] @bannerCheckSkippedIfUnconfigured cfg.CheckBanner == nil ==> !markerMissing
+
+//vc:func (*State).LoadDevice
+//vc:  requires[C06] !nameChecked
+//vc:  ensures[C06] @hostnameVerified err == nil ==> nameChecked && checkedName == path.Base(spocFile)
+//vc:  ensures[C06] @missingBannerRecorded err == nil ==> (markerMissing ==> len(s.errUnmanaged) > 0)
